@@ -406,7 +406,9 @@ func (l *Log) Maintenance(interval time.Duration, snapf string, stopc <-chan str
 			return size, err
 		}
 		if size, err = l.Snapshot(f); err != nil {
-			f.Close()
+			// Do not replace the previous snapshot with a partially written one.
+			f.File.Close()
+			os.Remove(f.Name())
 			return size, err
 		}
 		return size, f.Close()
